@@ -174,6 +174,9 @@ type env struct {
 	w   *sim.World
 	cfg *whConfig
 	mon *monitor
+	// grp is the API group of the Thing kind in this world: "nop.ex.org", or "" for the core
+	// group (apiVersion without a slash, as for Namespace / PersistentVolume / Node)
+	grp string
 
 	mu       sync.Mutex
 	handlers map[string]http.Handler // webhook path handlers per calling actor
@@ -185,12 +188,30 @@ type env struct {
 	usages   map[string]*usageActor
 }
 
-func newEnv(cfg *whConfig, seed uint64) *env {
+// coreGroup selects the Thing group of a case.
+func coreGroup(core bool) string {
+	if core {
+		return ""
+	}
+	return thingGroup
+}
+
+// apiV renders an apiVersion for a group and version.
+func apiV(grp, ver string) string {
+	if grp == "" {
+		return ver
+	}
+	return grp + "/" + ver
+}
+
+func (e *env) thingGK() schema.GroupKind { return schema.GroupKind{Group: e.grp, Kind: "Thing"} }
+
+func newEnv(cfg *whConfig, seed uint64, grp string) *env {
 	w := sim.NewWorld(xrk.Scheme(), seed)
 	w.SetKind(usageGK, sim.KindInfo{Plural: "usages"})
-	w.SetKind(thingGK, sim.KindInfo{Plural: "things"})
+	w.SetKind(schema.GroupKind{Group: grp, Kind: "Thing"}, sim.KindInfo{Plural: "things"})
 	w.SetKind(xrGK, sim.KindInfo{Plural: "xthings"})
-	e := &env{w: w, cfg: cfg, handlers: map[string]http.Handler{}, whc: map[string]*sim.Client{}, usages: map[string]*usageActor{}}
+	e := &env{w: w, cfg: cfg, grp: grp, handlers: map[string]http.Handler{}, whc: map[string]*sim.Client{}, usages: map[string]*usageActor{}}
 	e.mon = newMonitor()
 	// production start-up: the webhook set-up registers the field index the controller and the
 	// handler both query (real index function, registered through the fake FieldIndexer)
